@@ -46,4 +46,31 @@ def rxDissect (p : Pat) (line : Bytes) : Option (List Int) :=
   | [] => none
   | r => some r
 
+
+/-! ### how the command line chooses the matcher (`cmd/helpers/extractorBuilder.go`) -/
+
+/-- what `BuildMatcherFromArguments` builds from the flags -/
+inductive MatcherChoice where
+  /-- `--match` and `--dissect` together: error "match and dissect conflict" -/
+  | conflict
+  /-- `dissect.CompileEx(expr, ignoreCase)` -/
+  | dissect (expr : Bytes) (ignoreCase : Bool)
+  /-- `fastregex.CompileEx(expr, posix)` -/
+  | regex (expr : Bytes) (posix : Bool)
+  /-- neither flag: `matchers.AlwaysMatch` -/
+  | always
+  deriving Repr, DecidableEq
+
+/-- `(?i)` -/
+def icPrefix : Bytes := [40, 63, 105, 41]
+
+/-- the `switch` of `BuildMatcherFromArguments`: `-I` reaches dissect as `CompileEx`'s second
+argument and the regex as a `(?i)` in front of the expression -/
+def buildMatcher (matchSet dissectSet : Bool) (matchExpr dissectExpr : Bytes) (posix ignoreCase : Bool) :
+    MatcherChoice :=
+  if matchSet && dissectSet then .conflict
+  else if dissectSet then .dissect dissectExpr ignoreCase
+  else if matchSet then .regex (if ignoreCase then icPrefix ++ matchExpr else matchExpr) posix
+  else .always
+
 end Rare.C12
